@@ -190,7 +190,7 @@ def run(case):
 
 
 def strategy(tier):
-    return drive.st_es_case(tier=tier, scales=True)
+    return drive.st_es_case(tier=tier, scales=True, dim4=True)
 
 
 def selftest():
